@@ -220,6 +220,47 @@ def run(ck, w):
                                          "create_new options never opened"))
             if not found:
                 problems.append(("no OpenOptions::create_new on the CreateNew arm", None, "no exclusive-create primitive"))
+            # (d) the one exception - completing a leftover - applies to ZERO-LENGTH files only: an open that is
+            # neither exclusive nor truncating exists only together with a test `metadata.len() == 0`, and the
+            # length of the file in the way is compared with nothing but zero
+            bare = []
+            lens = []
+            for b in fam:
+                for e in b.events:
+                    if e.bb not in b.live or e.callee == rules.POLL:
+                        continue
+                    if re.search(r"^(tokio|std)::fs::OpenOptions::open$", e.name):
+                        cfg = {x[1].split("::")[-1] for x in flow.origins(b, e.args[0]) if x[0] == "call"}
+                        if "create_new" not in cfg and "truncate" not in cfg:
+                            bare.append((b, e))
+                    if e.name == "std::fs::Metadata::len":
+                        lens.append((b, e))
+            for b, e in lens:
+                tracked = {e.dest["l"]}
+                ch = True
+                while ch:
+                    ch = False
+                    for bb, j, st in b.all_assigns():
+                        rv = st["rv"]
+                        ops = rv.get("ops", [])
+                        if not any(flow.operand_local(op) in tracked for op in ops):
+                            continue
+                        if rv["rk"] == "use" and not st["pl"]["p"]:
+                            if st["pl"]["l"] not in tracked:
+                                tracked.add(st["pl"]["l"])
+                                ch = True
+                        elif rv["rk"] == "binop" and rv["op"] in ("Eq", "Ne") and any(op.get("k") == "const" and op.get("int") == "0" for op in ops):
+                            pass
+                        else:
+                            problems.append(("the length of the file in the way is used in `%s`, not only compared with zero" % (rv.get("op") or rv["rk"]),
+                                             "%s:%s" % (b.file, st.get("line")), "existing file length compared with something other than zero"))
+                for e2 in b.events:
+                    if e2.bb in b.live and e2 is not e and any(flow.operand_local(a) in tracked for a in e2.args):
+                        problems.append(("the length of the file in the way is passed to %s" % e2.name.split("::")[-1], e2.site(),
+                                         "existing file length compared with something other than zero"))
+            if bare and not lens:
+                problems.append(("a non-exclusive, non-truncating open exists without a zero-length test of the file in the way", bare[0][1].site(),
+                                 "leftover completion without a zero-length test"))
         elif kind == "sftp":
             found = False
             for b in fam:
